@@ -20,6 +20,7 @@ EXPLANATION = (
     "lookup, wrap-around moduli, bounds tests) uses the extent of the right axis (axis-kind engine shared with C07). "
     "(R4) every reward alternative of every environment depends on the action taken (a reward computed from the incoming state alone describes the previous situation). (R3) LevelBasedForaging: eaten food is ignored by the movement and loading rules (frozen instance table, see rules/lbf_rules.py). Not decided: everything that needs executing a reference model (2048 merges, Tetris drop and line clearing, Sokoban "
     "pushes, JobShop clock, Minesweeper counts, ...).")
+EXPLANATION += ' (R5) where step re-tests validity itself (Knapsack, TSP, CVRP, SlidingTilePuzzle, Minesweeper, Connector) that test equals the published mask clause by clause (borrowed from C04.R3b).'
 
 MIN_PAIRINGS = 50
 
@@ -56,7 +57,9 @@ def check(tier: str) -> Result:
             n_rw += 1
     from . import lbf_rules
     n_lbf = lbf_rules.add_obligations(res, tree, "C09.R3", "transition")
-    res.analysed = {"table_pairings": n, "axis_typed_sites": n_axis}
+    from .common import borrow
+    n_b = borrow(res, "c04", {"C04.R3b": "C09.R5"}, envs=["Knapsack", "TSP", "CVRP", "SlidingTilePuzzle", "Minesweeper", "Connector"])
+    res.analysed = {"table_pairings": n, "axis_typed_sites": n_axis, "mask_vs_step_validity": n_b}
     res.assumptions = ["direction names in the code carry their usual meaning (up = previous row, left = previous column)",
                        "PacMan is excluded from the naming convention (its x/y naming is transposed); only sibling agreement is checked there"]
     return res
